@@ -3,6 +3,8 @@
 From BW Require Import Merge.
 From BWP Require Import TextFacts Keys_proofs C01_proofs Run_proofs Merge_proofs.
 From Coq Require Import Permutation.
+From BW Require Import RunCase.
+From BWP Require Import Context_proofs Order_proofs.
 
 (* Permuting the files of the context and the blocks inside each file (walk order, hash-map iteration order) yields the same exit status and the same diagnostics and errors up to permutation. *)
 Theorem C20_files_and_blocks_any_order : forall o en dis ctx ctx', ctx_reorder ctx ctx' ->
@@ -38,3 +40,66 @@ Theorem C20_affects_set_only nm1 nm2 path bc :
   (forall x, In x nm1 <-> In x nm2) -> affects_block nm1 path bc = affects_block nm2 path bc.
 Proof. exact (affects_block_set_ext nm1 nm2 path bc). Qed.
 Print Assumptions C20_affects_set_only.
+
+(* The order in which the directory walk (or a parallel pool) hands files to the scanner does not matter: the contexts and errors contributed are the same up to permutation and a panic is reached in one order iff in the other. *)
+Theorem C20_walk_order : forall ext_map fs fs' changes acc, Permutation fs fs' ->
+  let r := scan_files ext_map fs changes acc in
+  let r' := scan_files ext_map fs' changes acc in
+  exists c c', cr_ctx r = cr_ctx acc ++ c /\ cr_ctx r' = cr_ctx acc ++ c' /\ Permutation c c' /\
+    (exists e e', cr_errs r = cr_errs acc ++ e /\ cr_errs r' = cr_errs acc ++ e' /\ Permutation e e') /\
+    cr_panic r = cr_panic r'.
+Proof. exact scan_files_perm. Qed.
+Print Assumptions C20_walk_order.
+
+(* Nor does the order in which the diff lists its file sections (hash-map iteration order of the parsed diff). *)
+Theorem C20_diff_section_order : forall ext_map fs scan changes changes' acc,
+  Permutation changes changes' -> NoDup (map fst changes) ->
+  (forall p l, In (p, l) changes -> find_file p fs <> None) ->
+  let r := diff_files ext_map fs scan changes acc in
+  let r' := diff_files ext_map fs scan changes' acc in
+  exists c c', cr_ctx r = cr_ctx acc ++ c /\ cr_ctx r' = cr_ctx acc ++ c' /\ Permutation c c' /\
+    (exists e e', cr_errs r = cr_errs acc ++ e /\ cr_errs r' = cr_errs acc ++ e' /\ Permutation e e') /\
+    cr_panic r = cr_panic r'.
+Proof. exact diff_files_perm. Qed.
+Print Assumptions C20_diff_section_order.
+
+(* Both together: the assembled context is the same multiset of per-file contexts and errors. *)
+Theorem C20_context_any_order : forall ext_map fs fs' scan changes changes',
+  Permutation fs fs' -> Permutation changes changes' ->
+  NoDup (map fst changes) -> NoDup (map rf_path fs) ->
+  (forall p l, In (p, l) changes -> find_file p fs <> None) ->
+  let r := build_context ext_map fs scan changes in
+  let r' := build_context ext_map fs' scan changes' in
+  Permutation (cr_ctx r) (cr_ctx r') /\ Permutation (cr_errs r) (cr_errs r') /\ cr_panic r = cr_panic r'.
+Proof. exact build_context_perm. Qed.
+Print Assumptions C20_context_any_order.
+
+(* End to end on the model of one whole run (diff parsing, context assembly, detection, validation, exit status): permuting the files leaves diagnostics, errors and exit status unchanged. *)
+Theorem C20_run_walk_order : forall c c' ch,
+  rc_diff c = rc_diff c' -> rc_scan c = rc_scan c' -> rc_ext c = rc_ext c' ->
+  rc_enabled c = rc_enabled c' -> rc_disabled c = rc_disabled c' ->
+  rc_tables c = rc_tables c' -> rc_cdiff c = rc_cdiff c' ->
+  Permutation (rc_files c) (rc_files c') -> NoDup (map rf_path (rc_files c)) ->
+  model_changes c = Ok ch -> NoDup (map fst ch) ->
+  (forall p l, In (p, l) ch -> find_file p (rc_files c) <> None) ->
+  Permutation (vr_diags (model_run c)) (vr_diags (model_run c')) /\
+  Permutation (vr_errs (model_run c)) (vr_errs (model_run c')) /\
+  exit_code (model_run c) = exit_code (model_run c').
+Proof. exact model_run_file_order. Qed.
+Print Assumptions C20_run_walk_order.
+
+(* End to end with the diff's file sections permuted as well. *)
+Theorem C20_run_walk_and_section_order : forall c c' d d' pfs pfs',
+  rc_scan c = rc_scan c' -> rc_ext c = rc_ext c' ->
+  rc_enabled c = rc_enabled c' -> rc_disabled c = rc_disabled c' ->
+  rc_tables c = rc_tables c' -> rc_cdiff c = rc_cdiff c' ->
+  Permutation (rc_files c) (rc_files c') -> NoDup (map rf_path (rc_files c)) ->
+  rc_diff c = Some d -> rc_diff c' = Some d' ->
+  parse_patch d = Ok pfs -> parse_patch d' = Ok pfs' -> Permutation pfs pfs' ->
+  NoDup (map target_path (live pfs)) ->
+  (forall f, In f (live pfs) -> find_file (target_path f) (rc_files c) <> None) ->
+  Permutation (vr_diags (model_run c)) (vr_diags (model_run c')) /\
+  Permutation (vr_errs (model_run c)) (vr_errs (model_run c')) /\
+  exit_code (model_run c) = exit_code (model_run c').
+Proof. exact model_run_walk_and_section_order. Qed.
+Print Assumptions C20_run_walk_and_section_order.
